@@ -144,7 +144,7 @@ func cmdCheck(args []string) int {
 		if fc.View != "" {
 			continue
 		}
-		if !hasProp(fc.Props, *prop) || (*only != "" && !strings.Contains(k, *only)) {
+		if !hasProp(fc.Props, *prop) || !onlyMatch(k, *only) {
 			continue
 		}
 		if fc.ThoroughOnly && *tier != "thorough" {
@@ -155,7 +155,7 @@ func cmdCheck(args []string) int {
 	}
 	for _, k := range sortedKeys(p.contracts.Scenarios) {
 		sc := p.contracts.Scenarios[k]
-		if !hasProp(sc.FC.Props, *prop) || (*only != "" && !strings.Contains(k, *only)) {
+		if !hasProp(sc.FC.Props, *prop) || !onlyMatch(k, *only) {
 			continue
 		}
 		if sc.FC.ThoroughOnly && *tier != "thorough" {
@@ -166,7 +166,7 @@ func cmdCheck(args []string) int {
 	}
 	for _, k := range sortedKeys(p.contracts.Lemmas) {
 		lm := p.contracts.Lemmas[k]
-		if !hasProp(lm.Props, *prop) || (*only != "" && !strings.Contains(k, *only)) {
+		if !hasProp(lm.Props, *prop) || !onlyMatch(k, *only) {
 			continue
 		}
 		if lm.Axiom {
@@ -545,7 +545,9 @@ func modelString(m map[string]string) string {
 func matchKnown(known []KnownFinding, prop, obl string) *KnownFinding {
 	for i := range known {
 		k := &known[i]
-		if k.Status == "open" && k.Property == prop && k.Obligation == obl {
+		if k.Status == "open" && k.Property == prop && k.Obligation == obl && k.InputClass == "" {
+			// findings with an input class are handled by splitting the obligation (see verify.go); only
+			// class-less findings (e.g. structure errors) are matched by name
 			return k
 		}
 	}
@@ -591,4 +593,17 @@ func splitCases(sp []SplitCase) []splitCase {
 		out = next
 	}
 	return out
+}
+
+// onlyMatch: the --only filter is a comma-separated list of substrings of unit names.
+func onlyMatch(name, only string) bool {
+	if only == "" {
+		return true
+	}
+	for _, s := range strings.Split(only, ",") {
+		if s != "" && strings.Contains(name, s) {
+			return true
+		}
+	}
+	return false
 }
